@@ -90,3 +90,10 @@ def run_harnesses(pid, hs, repo, scratch, say, extra_args=(), timeout=900):
     say(pid, 'kani: %s  (%.1f s)' % (', '.join('%s=%s' % (r['name'], r['status']) for r in res), wall))
     shutil.rmtree(os.path.join(scratch, 'kani-target'), ignore_errors=True)
     return res
+
+
+def standins_for(pid):
+    p = os.path.join(VERIF, 'kani', 'harnesses.json')
+    if not os.path.exists(p):
+        return []
+    return [s for s in json.load(open(p)).get('standins', []) if pid in s['props']]
